@@ -255,7 +255,13 @@ func BuildMsg(actors []*Actor, m *MsgSpec) (sdk.Msg, error) {
 		}
 		return group.NewMsgSubmitProposal(PolicyAddr(m.Id).String(), []string{A}, inner, "", exec, "p", "p")
 	case "feegrant.grant":
-		return feegrant.NewMsgGrantAllowance(&feegrant.BasicAllowance{}, AddrOf(actors, m.A), AddrOf(actors, m.B))
+		al := &feegrant.BasicAllowance{}
+		if m.N > 0 {
+			// N: unix time at which the allowance expires
+			t := time.Unix(int64(m.N), 0).UTC()
+			al.Expiration = &t
+		}
+		return feegrant.NewMsgGrantAllowance(al, AddrOf(actors, m.A), AddrOf(actors, m.B))
 	case "gov.submit":
 		inner := make([]sdk.Msg, 0, len(m.Inner))
 		for i := range m.Inner {
